@@ -126,11 +126,12 @@ theorem cmpGuard_mono (op : CmpOp) (a b : V) : ChkMono (cmpGuard · op a b) := b
     | exact seqChks_two_mono (hI _) (hN _)
 
 theorem mapInvalid_mono {f : Mode → Except Err Unit} (hf : ChkMono f) : ChkMono (fun m => mapInvalid (f m)) := by
-  intro m m' h
-  have hf' := hf m m' h
+  intro m m' h hm
+  show mapInvalid (f m') = .ok ()
+  have hm : mapInvalid (f m) = .ok () := hm
   cases h1 : f m with
-  | error e => simp [mapInvalid]
-  | ok u => cases u; rw [hf' h1]; simp [mapInvalid]
+  | error e => rw [h1] at hm; simp [mapInvalid] at hm
+  | ok u => cases u; rw [hf m m' h h1]; rfl
 
 theorem filterGuard_mono (name : String) (args : List V) : ChkMono (filterGuard · name args) := by
   obtain ⟨hH, hT, hI, hTI, hN, _⟩ := helper_mono
